@@ -672,6 +672,17 @@ def run(pid, tier):
     translators = {'C03': ['namegen', 'pipeline', 'resolve'], 'C04': ['namegen', 'pipeline', 'resolve'], 'C06': [], 'C09': ['pipeline', 'resolve'], 'C10': ['pipeline'], 'C11': ['pipeline', 'statesites']}[pid]
     models = ['Model/RenamerRun.vo', 'Proofs/RenamerProofs.vo', 'Model/ResolveRun.vo'] + (['Model/Hoist.vo'] if pid == 'C06' else []) + (['Model/ScopeRun.vo'] if pid in ('C03', 'C04', 'C09') else [])
     common.standard_proof_phase(res, translators, 'Properties/%s.v' % pid, model_targets=models)
+    if pid == 'C11' and res.broken:
+        # name the state sites that are not on the reviewed list (what the failing C11_no_state_outlives_a_call saw)
+        try:
+            import re as _re
+            tup = r'\(("(?:[^"]|"")*"), ("(?:[^"]|"")*"), ("(?:[^"]|"")*"), ("(?:[^"]|"")*")\)'
+            gen = set(_re.findall(tup, open(os.path.join(common.COQ, 'Gen', 'StateSites.v')).read()))
+            rev = set(_re.findall(tup, open(os.path.join(common.COQ, 'Properties', 'C11.v')).read()))
+            if gen != rev:
+                res.broken.append(('proof', 'state that outlives a call, not on the reviewed list: %s; reviewed sites that are gone: %s' % (sorted(gen - rev)[:6], sorted(rev - gen)[:6])))
+        except Exception:   # noqa
+            pass
     r = common.rng(pid)
     eff = tier if (not res.broken or tier == 'thorough') else 'search'
     srcs = case_sources(r, eff, triggers=(pid == 'C09'))
